@@ -92,11 +92,13 @@ def find_licenses_directory(root: Optional[StrPath] = None) -> Path:
 
 
 def _determine_license_path(path: StrPath) -> Path:
-    """Given a path FILE, return FILE.license if it exists, otherwise return
-    FILE.
+    """Given a path FILE, return FILE.license if that is a file, otherwise
+    return FILE.
     """
     license_path = Path(f"{path}.license")
-    if not license_path.exists():
+    # Something else of that name - a directory, a named pipe - is not a
+    # .license file.
+    if not license_path.is_file():
         license_path = Path(path)
     return license_path
 
